@@ -499,6 +499,26 @@ struct Ctx {
     // Index for inherent methods: (base_type, method_name) -> generic_func_name
     // Example: ("Point", "new") -> "impl_inherent_Point_TParam_U_TParam_V_new"
     inherent_method_index: IndexMap<(String, String), String>,
+    /// generic functions whose instantiation was abandoned because its type arguments are
+    /// larger than MAX_INSTANCE_TYPE_SIZE (polymorphic recursion)
+    too_deep: IndexSet<String>,
+}
+
+/// A function that calls itself at an ever larger type (`f[T]` calling `f[(T, T)]`) has no finite
+/// set of instances. Like other compilers that specialise generics, give up on an instance whose
+/// type arguments grow beyond this many type constructors and report it.
+const MAX_INSTANCE_TYPE_SIZE: usize = 512;
+
+fn ty_size(ty: &Ty) -> usize {
+    match ty {
+        Ty::TTuple { typs } => 1 + typs.iter().map(ty_size).sum::<usize>(),
+        Ty::TApp { ty, args } => 1 + ty_size(ty) + args.iter().map(ty_size).sum::<usize>(),
+        Ty::TArray { elem, .. } | Ty::TVec { elem } | Ty::TRef { elem } => 1 + ty_size(elem),
+        Ty::TFunc { params, ret_ty } => {
+            1 + params.iter().map(ty_size).sum::<usize>() + ty_size(ret_ty)
+        }
+        _ => 1,
+    }
 }
 
 impl Ctx {
@@ -525,6 +545,7 @@ impl Ctx {
             out: Vec::new(),
             work: VecDeque::new(),
             inherent_method_index,
+            too_deep: IndexSet::new(),
         }
     }
 
@@ -538,6 +559,12 @@ impl Ctx {
         let spec = spec_name_for(name, &s);
         self.instances
             .insert((name.to_string(), key.clone()), spec.clone());
+        if s.values().any(|ty| ty_size(ty) > MAX_INSTANCE_TYPE_SIZE) {
+            // not queued: the caller refers to an instance that is never generated, and the
+            // compilation is reported as failed
+            self.too_deep.insert(name.to_string());
+            return spec;
+        }
         if !self.queued.contains(&(name.to_string(), key.clone())) {
             self.queued.insert((name.to_string(), key));
             self.work.push_back((name.to_string(), s, spec.clone()));
@@ -1180,6 +1207,16 @@ fn rewrite_expr_types(e: MonoExpr, m: &mut TypeMono<'_>) -> MonoExpr {
 // Monomorphize Core IR by specializing generic functions per concrete call site.
 // Produces a file containing only monomorphic functions reachable from monomorphic roots.
 pub fn mono(genv: GlobalTypeEnv, file: core::File) -> (MonoFile, GlobalMonoEnv) {
+    let (file, env, _) = mono_with_diagnostics(genv, file);
+    (file, env)
+}
+
+/// Monomorphisation; the third component names the generic functions that could not be
+/// specialised because they are instantiated at ever larger types.
+pub fn mono_with_diagnostics(
+    genv: GlobalTypeEnv,
+    file: core::File,
+) -> (MonoFile, GlobalMonoEnv, Vec<String>) {
     let mut monoenv = GlobalMonoEnv::from_genv(genv);
     // Build original function map
     let mut orig_fns: IndexMap<String, core::Fn> = IndexMap::new();
@@ -1226,6 +1263,8 @@ pub fn mono(genv: GlobalTypeEnv, file: core::File) -> (MonoFile, GlobalMonoEnv) 
             body: new_body,
         });
     }
+
+    let too_deep: Vec<String> = ctx.too_deep.iter().cloned().collect();
 
     // Rewrite function signatures and bodies
     let mut m = TypeMono::new(&mut monoenv);
@@ -1301,5 +1340,5 @@ pub fn mono(genv: GlobalTypeEnv, file: core::File) -> (MonoFile, GlobalMonoEnv) 
     m.monoenv.retain_structs(|_n, def| def.generics.is_empty());
 
     let result = MonoFile { toplevels: new_fns };
-    (result, monoenv)
+    (result, monoenv, too_deep)
 }
